@@ -369,7 +369,11 @@ func (b *txBuilder) data(spec *TxSpec, sender types.Address) (interface{}, map[s
 		if p := str(a["proofPassword"]); p != "" {
 			pw = p
 		}
-		proofFor := sender
+		// the proof binds the check to the account that redeems it: the account of the key that signs the transaction
+		if !spec.Multi && len(spec.Sign) > 0 {
+			sender = b.n.Addr(spec.Sign[0])
+		}
+		proofFor := b.n.Addr(spec.From)
 		if p := str(a["proofFor"]); p != "" {
 			proofFor = b.n.Addr(p)
 		}
